@@ -176,6 +176,9 @@ func (k *RoutineContainer) setRoutineLocked(routine Routine, broadcast func()) (
 		k.routine = r
 		if k.ctx != nil {
 			k.routine.start(k.ctx, prevExitedCh, false)
+		} else {
+			// wait for the previous routine to exit when starting later
+			r.exitedCh = prevExitedCh
 		}
 		broadcast()
 	} else if wasReset {
